@@ -71,7 +71,7 @@ def _layout(tier):
     L = 4 if tier == "quick" else 6
     nrand = 600 if tier == "quick" else 30000
     ngate = len(_prefixes(tier)) * 2 * 8
-    ninside = len(SITES) * 8 * (2 if tier == "quick" else 3)
+    ninside = len(SITES) * 8 * 3        # x starter in {start, run_up_to_including, step}
     novl = len(OVERLAPS) * 3
     nstorm = 48 if tier == "quick" else 12000
     return L, _nseq(L), nrand, ngate, ninside, novl, nstorm
